@@ -12,7 +12,7 @@ rsync -a /verif/harness/ $T/harness/
 sed -i "s|path = \"/repo/|path = \"$T/repo/|g" $T/harness/Cargo.toml
 TD=/var/tmp/vp_trial_target
 need_repo_bin=0
-for c in "$@"; do case $c in C16|C17|C19|C20) need_repo_bin=1;; esac; done
+for c in "$@"; do case $c in C12|C15|C16|C17|C19|C20) need_repo_bin=1;; esac; done
 if [ $need_repo_bin = 1 ]; then
   cargo build --offline --manifest-path $T/repo/Cargo.toml -p mlar -p mla-bindings-c --target-dir $T/target_repo > $T/build_repo.log 2>&1 || { tail -20 $T/build_repo.log; echo "BUILD FAILED (mlar)"; rm -rf $T; exit 2; }
   export VERIF_MLAR=$T/target_repo/debug/mlar VERIF_LIBMLA=$T/target_repo/debug/libmla.so
